@@ -1168,11 +1168,11 @@ Proof.
   - rewrite dict_set_keys_new; auto. apply in_app_iff; auto.
 Qed.
 
-Lemma seq_set_depot_depot_set g nm g' : Inv g -> seq_set_depot g nm = Ok g' -> depot_set g'.
+Lemma seq_set_depot_depot_set s g nm g' : Inv g -> seq_set_depot s g nm = Ok g' -> depot_set g'.
 Proof.
   intros HI H. split; [eapply seq_set_depot_inv; eauto|].
-  unfold seq_set_depot in H. destruct (set_depot g nm); [|discriminate].
-  inversion H; subst; cbn [arcs]. apply dict_set_key_in.
+  destruct (seq_set_depot_stages _ _ _ _ H) as (d0 & g1 & g2 & _ & _ & _ & ->).
+  cbn [arcs]. apply dict_set_key_in.
 Qed.
 
 Lemma step_depot_set st g o : depot_set g -> depot_set (fst (step (Seq st) g o)).
@@ -1185,7 +1185,7 @@ Proof.
     destruct (index_of d (names g)); simpl; auto.
     match goal with |- context [if ?c then Ok _ else Ok _] => destruct c end; simpl; auto.
     apply dict_set_key_keep; auto.
-  - destruct (seq_set_depot g nm) as [g'|e] eqn:E; simpl; auto.
+  - destruct (seq_set_depot st g nm) as [g'|e] eqn:E; simpl; auto.
     eapply seq_set_depot_depot_set; eauto.
 Qed.
 
@@ -1329,7 +1329,8 @@ Qed.
 (* ================================================================== *)
 (** * 12. Strict mode: every walk meets the time windows *)
 
-(* what the strict add_arc guarantees for the stored arcs when the depot was node 0 all along:
+(* what the strict add_arc guarantees for the stored arcs, read with the depot at index 0 -- for every
+   history, since the strict set_depot re-adds the stored arcs when it moves the depot (strict_graph_all_histories):
    customer origin: window END + travel time <= destination window end;
    depot origin: window start + travel time <= destination window end;
    the depot self-arc (travel time 0 as set_depot stores it) keeps a waiting vehicle inside the depot window *)
@@ -1424,13 +1425,115 @@ Proof.
   - repeat split; try congruence. intros _. unfold strict_filter in Ep. apply ext_leb_le in Ep. exact Ep.
 Qed.
 
-(* set_depot on the node that already is the depot only (re)stores the self-arc with travel time 0 *)
+(* strict_graph splits into the part every strict add_arc checks (clauses 1 and 2) and the condition on
+   the depot self-arc (clause 3), which only the arc currently stored under (0,0) decides *)
+Definition strict_core (g : graph) : Prop :=
+  forall i j a, In ((i, j), a) (arcs g) ->
+    (i <> 0%nat -> ext_le (ext_add (nhi (gnode g i)) (att a)) (nhi (gnode g j))) /\
+    (i = 0%nat -> ext_le (Fin (nlo (gnode g 0) + att a)) (nhi (gnode g j))).
+
+Definition depot_self_ok (g : graph) : Prop :=
+  forall a, In ((0%nat, 0%nat), a) (arcs g) -> ext_le (ext_add (nhi (gnode g 0)) (att a)) (nhi (gnode g 0)).
+
+Lemma strict_graph_split g : strict_graph g <-> strict_core g /\ depot_self_ok g.
+Proof.
+  split.
+  - intros H. split.
+    + intros i j a Hin. destruct (H i j a Hin) as (C1 & C2 & _). auto.
+    + intros a Hin. destruct (H _ _ a Hin) as (_ & _ & C3). auto.
+  - intros [Hc Hs] i j a Hin. destruct (Hc i j a Hin) as (C1 & C2). repeat split; auto.
+    intros -> ->. apply Hs. exact Hin.
+Qed.
+
+(* the strict add_arc keeps the core without any side condition *)
+Lemma strict_core_add_arc g o d tm c g' b :
+  strict_core g -> add_arc_gen true g o d tm c = Ok (g', b) -> strict_core g'.
+Proof.
+  intros Hst H. unfold add_arc_gen in H.
+  destruct (index_of o (names g)) as [i|] eqn:Ei; [|discriminate].
+  destruct (index_of d (names g)) as [j|] eqn:Ej; [|discriminate].
+  match type of H with context [if ?p then Ok _ else Ok _] => destruct p eqn:Ep end;
+    inversion H; subst g' b; clear H; [|exact Hst].
+  intros i' j' a Hin. cbn [arcs] in Hin. apply dict_set_In in Hin.
+  unfold gnode. cbn [nodes]. fold (gnode g).
+  destruct Hin as [E|Hin]; [|apply Hst; auto].
+  inversion E; subst i' j' a; clear E. cbn [att].
+  destruct (Nat.eqb_spec i 0) as [E0|E0]; cbn [andb negb] in Ep.
+  - subst i. split; try congruence.
+    intros _. unfold base_filter in Ep. apply ext_leb_le in Ep. exact Ep.
+  - split; try congruence. intros _. unfold strict_filter in Ep. apply ext_leb_le in Ep. exact Ep.
+Qed.
+
+Lemma strict_core_readd g old g' :
+  strict_core g -> readd_arcs true g old = Ok g' -> strict_core g'.
+Proof.
+  apply (readd_arcs_ind strict_core). intros g0 kv g1 b _ Hc H. eapply strict_core_add_arc; eauto.
+Qed.
+
+Lemma keys_unique {U} (d : dict U) k a b :
+  NoDup (map fst d) -> In (k, a) d -> In (k, b) d -> a = b.
+Proof.
+  induction d as [|[k' v'] d IH]; simpl; [tauto|]. intros Hnd Ha Hb. inversion Hnd as [|x l Hni Hnd']; subst.
+  destruct Ha as [Ea|Ha], Hb as [Eb|Hb].
+  - congruence.
+  - inversion Ea; subst. exfalso. apply Hni. apply (in_map fst) in Hb. exact Hb.
+  - inversion Eb; subst. exfalso. apply Hni. apply (in_map fst) in Ha. exact Ha.
+  - eauto.
+Qed.
+
+(* storing the depot self-arc (travel time 0) on top of a core-strict graph gives strict_graph *)
+Lemma strict_graph_self_arc g :
+  strict_core g -> windows_ok g -> (0 < length (nodes g))%nat -> NoDup (map fst (arcs g)) ->
+  strict_graph (mkGraph (names g) (nodes g)
+     (dict_set (O, O) (mkArc (nname (nth 0 (nodes g) dummy_node)) (nname (nth 0 (nodes g) dummy_node)) 0 0) (arcs g))).
+Proof.
+  intros Hc Hwin HN Hnd. set (sa := mkArc _ _ 0 0).
+  assert (Hh : forall h, ext_le (ext_add h 0) h).
+  { intros [z|]; unfold ext_le, ext_add; simpl; auto; lia. }
+  apply strict_graph_split. split.
+  - intros i j a Hin. cbn [arcs] in Hin. apply dict_set_In in Hin.
+    unfold gnode. cbn [nodes]. fold (gnode g).
+    destruct Hin as [E|Hin]; [|apply Hc; auto].
+    inversion E; subst i j a; clear E. cbn [att]. split; [congruence|].
+    intros _. rewrite Z.add_0_r. apply Hwin. exact HN.
+  - intros a Hin. cbn [arcs] in Hin. unfold gnode. cbn [nodes]. fold (gnode g).
+    assert (Ea : a = sa).
+    { eapply (keys_unique (dict_set (O, O) sa (arcs g))); [apply dict_set_NoDup; exact Hnd | exact Hin |].
+      apply dict_get_In. apply dict_get_set_same. }
+    rewrite Ea. cbn [att sa]. apply Hh.
+Qed.
+
+(* the strict set_depot: whichever node is chosen, the result satisfies the full strict_graph --
+   when the depot moves, every stored arc is re-added through the strict add_arc for its new
+   position; the depot self-arc is stored with travel time 0 *)
+Lemma strict_graph_seq_set_depot g nm g' :
+  Inv g -> strict_core g -> seq_set_depot true g nm = Ok g' -> strict_graph g'.
+Proof.
+  intros HI Hc H. destruct (seq_set_depot_stages _ _ _ _ H) as (d0 & g1 & g2 & Ed & E1 & E2 & ->).
+  pose proof (set_depot_inv _ _ _ HI E1) as HI1.
+  destruct (set_depot_has_depot _ _ _ HI E1) as [n0 Hn0].
+  assert (H2 : Inv g2 /\ nodes g2 = nodes g1 /\ strict_core g2).
+  { cbn [andb] in E2. destruct (Nat.eqb_spec d0 0) as [E0|E0]; cbn [negb] in E2.
+    - inversion E2; subst g2. split; [exact HI1|]. split; [reflexivity|].
+      unfold set_depot in E1. rewrite Ed, E0 in E1. inversion E1; subst; exact Hc.
+    - split; [eapply readd_arcs_inv; [apply Inv_clear_arcs; exact HI1 | exact E2]|].
+      split; [apply readd_arcs_frame in E2; tauto|].
+      eapply strict_core_readd; [|exact E2]. intros i j a []. }
+  destruct H2 as (HI2 & En & Hc2).
+  apply strict_graph_self_arc; auto.
+  - intros n Hn. apply (inv_windows g2 HI2). apply nth_In. exact Hn.
+  - rewrite En. apply nth_error_lt in Hn0. exact Hn0.
+  - apply (inv_keys g2 HI2).
+Qed.
+
+(* special case kept from before the repair: set_depot on the node that already is the depot only
+   (re)stores the self-arc with travel time 0 *)
 Lemma strict_graph_set_depot_same g nm g' :
   strict_graph g -> windows_ok g -> (0 < length (nodes g))%nat ->
-  index_of nm (names g) = Some 0%nat -> seq_set_depot g nm = Ok g' -> strict_graph g'.
+  index_of nm (names g) = Some 0%nat -> seq_set_depot true g nm = Ok g' -> strict_graph g'.
 Proof.
   intros Hst Hwin HN Hi H. unfold seq_set_depot, set_depot in H. rewrite Hi in H.
-  inversion H; subst g'; clear H.
+  cbn [Nat.eqb negb andb] in H. inversion H; subst g'; clear H.
   intros i j a Hin. cbn [arcs] in Hin. apply dict_set_In in Hin.
   unfold gnode. cbn [nodes]. fold (gnode g).
   destruct Hin as [E|Hin]; [|apply Hst; auto].
@@ -1713,14 +1816,10 @@ Qed.
 Lemma windows_ok_of_inv g : Inv g -> windows_ok g.
 Proof. intros HI n Hn. apply (inv_windows g HI). apply nth_In. exact Hn. Qed.
 
+(* (moved to Vrptw_facts.v; kept under this name for the files that import Seq_facts only) *)
 Lemma add_arc_gen_frame s g o d tm c g' b :
   add_arc_gen s g o d tm c = Ok (g', b) -> names g' = names g /\ nodes g' = nodes g.
-Proof.
-  unfold add_arc_gen. destruct (index_of o (names g)); [|discriminate].
-  destruct (index_of d (names g)); [|discriminate].
-  match goal with |- context [if ?p then Ok _ else Ok _] => destruct p end;
-    intros H; inversion H; subst; auto.
-Qed.
+Proof. exact (Vrptw_facts.add_arc_gen_frame s g o d tm c g' b). Qed.
 
 Lemma strict_graph_add_node g nm dem lo hi g' :
   Inv g -> strict_graph g -> add_node g nm dem lo hi = Ok g' -> strict_graph g'.
@@ -1746,35 +1845,28 @@ Lemma refilter_strict g0 g1 :
   self_arcs_ok g0 -> refilter g0 = Ok g1 ->
   strict_graph g1 /\ names g1 = names g0 /\ nodes g1 = nodes g0.
 Proof.
-  intros Hself. unfold refilter.
-  set (step := fun (r : result graph) (kv : nat * nat * arc) =>
-         match r with
-         | Err e => Err e
-         | Ok g' =>
-             match add_arc_gen true g' (aorig (snd kv)) (adest (snd kv)) (att (snd kv)) (acost (snd kv)) with
-             | Ok (g'', _) => Ok g''
-             | Err e => Err e
-             end
-         end).
-  set (P := fun r : result graph =>
-         match r with
-         | Ok g' => strict_graph g' /\ names g' = names g0 /\ nodes g' = nodes g0
-         | Err _ => True
-         end).
-  assert (G : forall l r, (forall kv, In kv l -> In kv (arcs g0)) -> P r -> P (fold_left step l r)).
-  { induction l as [|kv l IH]; intros r Hl Hr; simpl; auto.
-    apply IH; [intros; apply Hl; simpl; auto|].
-    destruct r as [g'|e]; simpl; auto. destruct Hr as (Hst & En & Ed).
-    destruct (add_arc_gen true g' (aorig (snd kv)) (adest (snd kv)) (att (snd kv)) (acost (snd kv)))
-      as [[g'' b]|e] eqn:Ea; simpl; auto.
+  intros Hself H. unfold refilter in H.
+  apply (readd_arcs_ind (fun g' => strict_graph g' /\ names g' = names g0 /\ nodes g' = nodes g0)
+           true (arcs g0)) with (g := mkGraph (names g0) (nodes g0) []); auto.
+  - intros g' kv g'' b Hin (Hst & En & Ed) Ea.
     destruct (add_arc_gen_frame _ _ _ _ _ _ _ _ Ea) as [En' Ed'].
     split; [|split; congruence].
     eapply strict_graph_add_arc; eauto. rewrite En. unfold gnode. rewrite Ed.
-    apply (Hself kv). apply Hl. simpl; auto. }
-  intros H. specialize (G (arcs g0) (Ok (mkGraph (names g0) (nodes g0) []))).
-  fold step in H. rewrite H in G. apply G; auto.
-  simpl. split; [intros i j a [] | split; reflexivity].
+    apply (Hself kv). exact Hin.
+  - simpl. split; [intros i j a [] | split; reflexivity].
 Qed.
+
+(* without any condition on handed-over self-arcs the constructor's loop establishes the core *)
+Lemma refilter_strict_core g0 g1 :
+  refilter g0 = Ok g1 -> strict_core g1 /\ names g1 = names g0 /\ nodes g1 = nodes g0.
+Proof.
+  intros H. unfold refilter in H. split.
+  - eapply strict_core_readd; [|exact H]. intros i j a [].
+  - apply readd_arcs_frame in H. exact H.
+Qed.
+
+Lemma refilter_inv g0 g1 : Inv g0 -> refilter g0 = Ok g1 -> Inv g1.
+Proof. intros HI H. eapply readd_arcs_inv; [apply Inv_clear_arcs; exact HI | exact H]. Qed.
 
 Theorem seq_init_strict g0 g :
   Inv g0 -> self_arcs_ok g0 -> seq_init true g0 = Ok g -> strict_graph g.
@@ -1789,4 +1881,93 @@ Proof.
   - rewrite Ed. pose proof (inv_aligned g0 HI) as Ha. rewrite <- En in Ha.
     destruct (nodes g0); simpl in *; [discriminate | lia].
   - rewrite Enames. simpl. rewrite Nat.eqb_refl. reflexivity.
+Qed.
+
+(* ---------- every history on a strict object ---------- *)
+Lemma seq_init_inv st g0 g : Inv g0 -> seq_init st g0 = Ok g -> Inv g.
+Proof.
+  intros HI H. unfold seq_init in H.
+  destruct (if st then refilter g0 else Ok g0) as [g1|e] eqn:Er; [|discriminate].
+  assert (HI1 : Inv g1).
+  { destruct st; [eapply refilter_inv; eauto | inversion Er; subst; exact HI]. }
+  destruct (names g1) as [|nm rest]; [inversion H; subst; exact HI1|].
+  eapply seq_set_depot_inv; eauto.
+Qed.
+
+Lemma seq_init_strict_core g0 g : Inv g0 -> seq_init true g0 = Ok g -> strict_core g.
+Proof.
+  intros HI H. unfold seq_init in H.
+  destruct (refilter g0) as [g1|e] eqn:Er; [|discriminate].
+  destruct (refilter_strict_core g0 g1 Er) as (Hc & _ & _).
+  destruct (names g1) as [|nm rest]; [inversion H; subst; exact Hc|].
+  pose proof (refilter_inv _ _ HI Er) as HI1.
+  apply strict_graph_split. eapply strict_graph_seq_set_depot; eauto.
+Qed.
+
+Lemma strict_core_add_node g nm dem lo hi g' :
+  Inv g -> strict_core g -> add_node g nm dem lo hi = Ok g' -> strict_core g'.
+Proof.
+  intros HI Hst H. unfold add_node in H. destruct (memb nm (names g)); [discriminate|].
+  destruct (negb (window_ok lo hi)); [discriminate|]. inversion H; subst; clear H.
+  intros i j a Hin. cbn [arcs] in Hin.
+  destruct (inv_arcs g HI _ _ Hin) as (no & nd & Hi & Hj & _). cbn [fst snd] in Hi, Hj.
+  apply nth_error_lt in Hi, Hj.
+  assert (E : forall k, (k < length (nodes g))%nat ->
+                        gnode (mkGraph (names g ++ [nm]) (nodes g ++ [mkNode nm dem lo hi]) (arcs g)) k = gnode g k).
+  { intros k Hk. unfold gnode. cbn [nodes]. apply app_nth1. exact Hk. }
+  rewrite !E by lia. apply Hst. exact Hin.
+Qed.
+
+Lemma step_strict_core g o : Inv g -> strict_core g -> strict_core (fst (step (Seq true) g o)).
+Proof.
+  intros HI Hc. destruct o as [nm dem lo hi|o d tm c|nm]; cbn [step].
+  - destruct (add_node g nm dem lo hi) as [g'|e] eqn:E; cbn [fst]; auto.
+    eapply strict_core_add_node; eauto.
+  - destruct (add_arc_gen true g o d tm c) as [[g' b]|e] eqn:E; cbn [fst]; auto.
+    eapply strict_core_add_arc; eauto.
+  - destruct (seq_set_depot true g nm) as [g'|e] eqn:E; cbn [fst]; auto.
+    apply strict_graph_split. eapply strict_graph_seq_set_depot; eauto.
+Qed.
+
+Lemma run_strict_core ops g : Inv g -> strict_core g -> strict_core (run (Seq true) ops g).
+Proof.
+  unfold run. revert g; induction ops as [|o ops IH]; simpl; intros g HI Hc; auto.
+  apply IH; [apply step_inv; exact HI | apply step_strict_core; auto].
+Qed.
+
+(* every history of add_node / add_arc / set_depot on a strict object -- created on any well-formed
+   graph, the depot chosen or moved at any time -- yields a graph satisfying strict_graph as soon as the
+   arc currently stored under (0,0) keeps a waiting vehicle inside the depot window *)
+Theorem strict_graph_all_histories g0 g1 ops :
+  Inv g0 -> seq_init true g0 = Ok g1 ->
+  let g := run (Seq true) ops g1 in
+  Inv g /\ strict_core g /\ (depot_self_ok g -> strict_graph g).
+Proof.
+  intros HI H0 g. pose proof (seq_init_inv _ _ _ HI H0) as HI1.
+  assert (Hc : strict_core g) by (apply run_strict_core; [exact HI1 | exact (seq_init_strict_core _ _ HI H0)]).
+  split; [apply run_inv; exact HI1|]. split; [exact Hc|].
+  intros Hs. apply strict_graph_split. auto.
+Qed.
+
+(* ... and a history that ends with a set_depot call yields it unconditionally *)
+Theorem strict_graph_after_set_depot g0 g1 ops nm g :
+  Inv g0 -> seq_init true g0 = Ok g1 ->
+  seq_set_depot true (run (Seq true) ops g1) nm = Ok g -> strict_graph g.
+Proof.
+  intros HI H0 H. destruct (strict_graph_all_histories g0 g1 ops HI H0) as (HIr & Hc & _).
+  eapply strict_graph_seq_set_depot; eauto.
+Qed.
+
+(* strict timing along every walk, for every history *)
+Theorem strict_time_all_histories g0 g1 ops V L vc W v :
+  Inv g0 -> seq_init true g0 = Ok g1 ->
+  let I := mkInst (run (Seq true) ops g1) V L vc in
+  depot_self_ok (ig I) -> walk_assignment I W -> (v < iV I)%nat ->
+  forall s, (s < iL I)%nat ->
+    nlo (node_at I (W v s)) <= arrival I (W v) s /\
+    ext_le (Fin (arrival I (W v) s)) (nhi (node_at I (W v s))).
+Proof.
+  intros HI H0 I Hs HW Hv.
+  destruct (strict_graph_all_histories g0 g1 ops HI H0) as (HIr & Hc & Hsg).
+  apply strict_time; auto. apply windows_ok_of_inv. exact HIr.
 Qed.
